@@ -41,7 +41,7 @@ let suite_txval (line : string) : string =
   let n = ni t in
   let ixes = Stdlib.List.init n (fun _ ->
     let p = prog_of (ni t) in let d = disc_of (next t) in let len = nz t in let a0 = ni t in
-    { M.d_prog = p; d_len = len; d_disc = d; d_accts = (if a0 = 0 then [] else [zi a0]); d_args = [] }) in
+    { M.d_prog = p; d_len = len; d_disc = d; d_accts = (if a0 = 0 then [] else if a0 < 100 then [zi a0] else [zi (a0 mod 100); zi (a0 / 100)]); d_args = [] }) in
   let out = ref [] in
   let push s = out := s :: !out in
   push (ures (M.validate_ix_first ixes pid exp allowed));
@@ -98,6 +98,7 @@ and parse_ixd (t : toks) : M.ixd =
   | "ED" -> let a = nz t in let r = nz t in M.mk_ED a r
   | "SF" -> let a = nz t in let s = nz t in let e = nz t in M.mk_SF a s e
   | "EF" -> let a = nz t in let s = nz t in M.mk_EF a s
+  | "EFX" -> let a = nz t in let s = nz t in let x = nz t in M.mk_EFX a s x
   | "WD" -> let a = nz t in let s = nz t in let b = nz t in let m = nz t in M.mk_WD a s b m
   | "RP" -> let a = nz t in let s = nz t in let b = nz t in let m = nz t in M.mk_RP a s b m
   | "BR" -> let a = nz t in let s = nz t in let b = nz t in let m = nz t in M.mk_BR a s b m
